@@ -24,6 +24,9 @@ build_variant() {
   mkdir -p "$(dirname "$out")"
   local mf; mf="$(modfile_for_repo)"
   local flags="-tags verif"
+  # runs against a scratch worktree (seeded changes): -trimpath makes unchanged packages share build-cache entries
+  # across worktrees (otherwise every worktree costs ~3 GB of cache); registered checks (/repo) build as before
+  if [ -n "$mf" ]; then flags="$flags -trimpath"; fi
   case "$variant" in
     race) flags="$flags -race";;
     asan) flags="$flags -asan";;
